@@ -38,6 +38,28 @@ def compute_function_sort(entry_1: ComputeEntry, entry_2: ComputeEntry) -> int:
 
 
 
+def _decode_variable_length_residue(schc_packet: Buffer) -> Tuple[Buffer, int]:
+    """
+    Decode a variable-length residue placed at the beginning of `schc_packet`: its size in bits
+    encoded on 4, 12 or 28 bits (section 7.4.2 of [1]) followed by the residue itself.
+    Returns the residue and the total number of bits consumed.
+    """
+    length_buffer: Buffer = schc_packet[0:4]
+    length_buffer.pad(padding=Padding.LEFT, inplace=True)
+    encoded_length_value: int = int.from_bytes(length_buffer.content, 'big')
+    if encoded_length_value < 15:
+        return schc_packet[4:4+encoded_length_value], 4 + encoded_length_value
+    length_buffer = schc_packet[4:12]
+    length_buffer.pad(padding=Padding.LEFT, inplace=True)
+    encoded_length_value = int.from_bytes(length_buffer.content, 'big')
+    if encoded_length_value < 255:
+        return schc_packet[12:12+encoded_length_value], 12 + encoded_length_value
+    length_buffer = schc_packet[12:28]
+    length_buffer.pad(padding=Padding.LEFT, inplace=True)
+    encoded_length_value = int.from_bytes(length_buffer.content, 'big')
+    return schc_packet[28:28+encoded_length_value], 28 + encoded_length_value
+
+
 def decompress(schc_packet: Buffer, rule_descriptor: RuleDescriptor, unparser: PacketParser=None) -> Buffer:
     """
         Decompress the packet fields following the rule's compression actions.
@@ -61,11 +83,15 @@ def decompress(schc_packet: Buffer, rule_descriptor: RuleDescriptor, unparser: P
             decompressed_field += rf.target_value
         elif rf.compression_decompression_action == CDA.LSB:
             assert isinstance(rf.target_value, Buffer)
-            lsb_bitlength: int = rf.length-rf.target_value.length
-            field_residue = schc_packet[:lsb_bitlength]
+            if rf.length != 0:
+                lsb_bitlength: int = rf.length-rf.target_value.length
+                field_residue = schc_packet[:lsb_bitlength]
+                residue_bitlength = lsb_bitlength
+            else:
+                # variable field length: the residue is preceded by its encoded length
+                field_residue, residue_bitlength = _decode_variable_length_residue(schc_packet)
             decompressed_field += rf.target_value
             decompressed_field += field_residue
-            residue_bitlength = lsb_bitlength
         elif rf.compression_decompression_action == CDA.MAPPING_SENT:
             assert isinstance(rf.target_value, MatchMapping)
             for key, value in rf.target_value.reverse.items():
@@ -82,25 +108,8 @@ def decompress(schc_packet: Buffer, rule_descriptor: RuleDescriptor, unparser: P
                 residue_bitlength = rf.length
             else:
                 # variable field encoded length
-                length_buffer: Buffer = schc_packet[0:4]
-                length_buffer.pad(padding=Padding.LEFT, inplace=True)
-                encoded_length_value: int = int.from_bytes(length_buffer.content, 'big')
-                if encoded_length_value < 15:
-                    decompressed_field += schc_packet[4:4+encoded_length_value]
-                    residue_bitlength = 4 + encoded_length_value
-                else:
-                    length_buffer = schc_packet[4:12]
-                    length_buffer.pad(padding=Padding.LEFT, inplace=True)
-                    encoded_length_value: int = int.from_bytes(length_buffer.content, 'big')
-                    if encoded_length_value < 255:
-                        decompressed_field += schc_packet[12:12+encoded_length_value]
-                        residue_bitlength = 12 + encoded_length_value
-                    else:
-                        length_buffer = schc_packet[12:28]
-                        length_buffer.pad(padding=Padding.LEFT, inplace=True)
-                        encoded_length_value: int = int.from_bytes(length_buffer.content, 'big')
-                        decompressed_field += schc_packet[28:28+encoded_length_value]
-                        residue_bitlength = 28 + encoded_length_value
+                field_residue, residue_bitlength = _decode_variable_length_residue(schc_packet)
+                decompressed_field += field_residue
         elif rf.compression_decompression_action == CDA.COMPUTE:
             # add a placeholder for the decompressed field and add the decompression action to the LIFO queue
             field_id: str = rf.id
